@@ -27,9 +27,24 @@ type rPayload struct {
 }
 
 func (p rPayload) bytes() []byte { return []byte(fmt.Sprintf("%d|%v|%s", p.Round, p.Bcast, p.Body)) }
+// digest: sha256 of the payload, except for the bodies "P<k>x" / "S<k>x" whose digests are forced
+// to share their first / last k bytes with the other bodies of that family (still distinct digests:
+// a conflict check that compares only part of the digest must not get away with it).
 func (p rPayload) digest() []byte {
 	d := sha256.Sum256(p.bytes())
-	return d[:]
+	out := d[:]
+	var k int
+	var x byte
+	if n, _ := fmt.Sscanf(p.Body, "P%d%c", &k, &x); n == 2 && k > 0 && k < 32 {
+		for i := 0; i < k; i++ {
+			out[i] = 0xAB
+		}
+	} else if n, _ := fmt.Sscanf(p.Body, "S%d%c", &k, &x); n == 2 && k > 0 && k < 32 {
+		for i := 32 - k; i < 32; i++ {
+			out[i] = 0xCD
+		}
+	}
+	return out
 }
 
 // rMsg implements rbc.Message.
@@ -259,6 +274,17 @@ func genRCase(byzantine bool, maxN int) func(t *rapid.T) rCase {
 					c.Moves = append(c.Moves, rMove{Kind: 1, From: rapid.IntRange(0, len(c.Byz)-1).Draw(t, "tafrom"), To: rapid.IntRange(0, nh-1).Draw(t, "tato"), Round: r, About: 5, Ref: rapid.IntRange(0, 1).Draw(t, "taref")})
 				}
 			}
+			if rapid.IntRange(0, 5).Draw(t, "twins") == 0 {
+				// both payloads of a partial-collision family to two honest parties, in opposite orders
+				fam := rapid.SampledFrom([]int{3, 5, 7, 9}).Draw(t, "family")
+				r := rapid.IntRange(1, 2).Draw(t, "twround")
+				from := rapid.IntRange(0, len(c.Byz)-1).Draw(t, "twfrom")
+				v1 := rapid.IntRange(0, nh-1).Draw(t, "twv1")
+				v2 := rapid.IntRange(0, nh-1).Draw(t, "twv2")
+				c.Moves = append(c.Moves,
+					rMove{Kind: 0, From: from, To: v1, Round: r, Body: fam}, rMove{Kind: 0, From: from, To: v1, Round: r, Body: fam + 1},
+					rMove{Kind: 0, From: from, To: v2, Round: r, Body: fam + 1}, rMove{Kind: 0, From: from, To: v2, Round: r, Body: fam})
+			}
 			nm := rapid.IntRange(1, 14).Draw(t, "nmoves")
 			for i := 0; i < nm; i++ {
 				c.Moves = append(c.Moves, rMove{
@@ -266,7 +292,7 @@ func genRCase(byzantine bool, maxN int) func(t *rapid.T) rCase {
 					From:   rapid.IntRange(0, len(c.Byz)-1).Draw(t, "from"),
 					To:     rapid.IntRange(0, nh-1).Draw(t, "to"),
 					Round:  rapid.IntRange(1, 2).Draw(t, "round"),
-					Body:   rapid.IntRange(0, 2).Draw(t, "body"),
+					Body:   rapid.SampledFrom([]int{0, 0, 1, 1, 2, 3, 4, 5, 6, 7, 8, 9, 10}).Draw(t, "body"),
 					About:  rapid.SampledFrom([]int{5, 5, 5, 5, 5, 5, 0, 1, 2, 3, 4}).Draw(t, "about"),
 					AboutI: rapid.IntRange(0, 4).Draw(t, "aboutI"),
 					Digest: rapid.SampledFrom([]int{0, 0, 0, 0, 0, 0, 1, 2, 3, 4}).Draw(t, "digest"),
@@ -283,7 +309,7 @@ func genRCase(byzantine bool, maxN int) func(t *rapid.T) rCase {
 	}
 }
 
-var rBodies = []string{"X", "Y", "Z"}
+var rBodies = []string{"X", "Y", "Z", "P4a", "P4b", "P16a", "P16b", "S16a", "S16b", "P31a", "P31b"}
 
 // runRCase executes the case; prop selects which oracle's verdict is returned
 // ("C02", "C03", "C04").
